@@ -18,6 +18,7 @@ theorem step_orig (s : Rotator) (op : Op) : (step s op).1.orig = s.orig := by
   | rotate Q n =>
     cases h : rotateOnce s.orig (Q.mul s.rot) n <;> simp only [step, h]
   | clear => rfl
+  | unknown => rfl
 
 theorem step_rotate_rot (s : Rotator) (Q : M3) (n : Option (List Nat)) : (step s (.rotate Q n)).1.rot = Q.mul s.rot := by
   cases h : rotateOnce s.orig (Q.mul s.rot) n <;> simp only [step, h]
@@ -53,6 +54,9 @@ theorem run_rot (s : Rotator) (cur : List M3) (hs : s.rot = prodL cur) (ops : Li
       simp only [run, seg]
       apply ih
       rfl
+    | unknown =>
+      simp only [run, seg]
+      exact ih _ _ hs
 
 theorem init?_ok_inv (f : Fld) (s : Rotator) (h : init? f = .ok s) : s = ⟨f, M3.one, f⟩ := by
   unfold init? at h
@@ -63,5 +67,20 @@ theorem init?_ok_inv (f : Fld) (s : Rotator) (h : init? f = .ok s) : s = ⟨f, M
     · split at h
       · cases h
       · injection h with h; exact h.symm
+
+/-- a call with an unknown method name -/
+def Op.isUnknown : Op → Bool
+  | .unknown => true
+  | _ => false
+
+/-- refused method names leave no trace: the history without them reaches the same state -/
+theorem run_skip_unknown (s : Rotator) (ops : List Op) : run s (ops.filter fun o => !o.isUnknown) = run s ops := by
+  induction ops generalizing s with
+  | nil => rfl
+  | cons op ops ih =>
+    cases op with
+    | rotate Q n => simp only [List.filter, Op.isUnknown, Bool.not_false, run]; exact ih _
+    | clear => simp only [List.filter, Op.isUnknown, Bool.not_false, run]; exact ih _
+    | unknown => simp only [List.filter, Op.isUnknown, Bool.not_true, run, step]; exact ih _
 
 end DFV.C18
